@@ -581,4 +581,338 @@ theorem parseQuantity_ev {q : List Tok} (hc : Ctx off w Pv ts) (hq : WFI off w q
   refine Sat.bind (Sat.modify ?_)
   exact Sat.pure ⟨⟨⟨h.g.toks, g2.g.ext, g2.g.panic, h.g.le⟩, g2.evs⟩, rfl, hr⟩
 
+/-! ### Components -/
+
+/-- a parsed component body: the name tokens are a run inside the text starting where the body
+    started, a quantity is a block, the span of the braces is fine and ends after the name start -/
+def BodyOKE (off : Nat) (w : List Char) (ts : List Tok) (c : Nat) (b : Body) : Prop :=
+  RunIn off w (offAt ts c) b.name ∧ (∀ q, b.quantity = some q → WFI off w q) ∧
+  (∀ sp, b.close = some sp → SpanOK off w sp ∧ offAt ts c ≤ sp.stop)
+
+theorem compBodyLong_ev (hc : Ctx off w Pv ts) (h : GE Pv ts e s) :
+    Sat (compBodyLong (α := α)) s (fun r s' => GE Pv ts e s' ∧
+      match r with
+      | none => s'.cur = s.cur
+      | some b => s.cur < s'.cur ∧ BodyOKE off w ts s.cur b) := by
+  unfold compBodyLong
+  apply withRecover_sat
+  refine Sat.bind (Sat.mono (untilK_ge _ h) ?_)
+  rintro r1 s1 ⟨g1, h1⟩
+  cases r1 with
+  | none => exact Sat.pure ⟨g1.setCur h.le, rfl⟩
+  | some name =>
+    obtain ⟨c1, hname, -, -⟩ := h1
+    refine Sat.bind (Sat.mono (consumeK_ge _ g1) ?_)
+    rintro r2 s2 ⟨g2, h2⟩
+    cases r2 with
+    | none => exact Sat.pure ⟨g2.setCur h.le, rfl⟩
+    | some ob =>
+      obtain ⟨hob, -, c2⟩ := h2
+      refine Sat.bind (Sat.mono (untilK_ge _ g2) ?_)
+      rintro r3 s3 ⟨g3, h3⟩
+      cases r3 with
+      | none => exact Sat.pure ⟨g3.setCur h.le, rfl⟩
+      | some q =>
+        obtain ⟨c3, hq, ⟨t, ht, hk⟩, -⟩ := h3
+        refine Sat.bind (Sat.mono (bump_ge g3 ht (by simpa using hk)) ?_)
+        rintro cb s4 ⟨rfl, g4, c4⟩
+        refine Sat.pure ⟨g4, by omega, ?_, ?_, ?_⟩
+        · rw [hname]; exact hc.wfi.slice c1
+        · intro q' hq'
+          dsimp only at hq'
+          split at hq'
+          · rename_i hany
+            simp only [Option.some.injEq] at hq'
+            subst hq'
+            have hr : RunIn off w (offAt ts s2.cur) q := by rw [hq]; exact hc.wfi.slice c3
+            refine hr.wfi ?_
+            intro h0; rw [h0] at hany; simp at hany
+          · cases hq'
+        · intro sp hsp
+          simp only [Option.some.injEq] at hsp
+          subst hsp
+          refine ⟨hc.wfi.span_toks hob ht (by omega), ?_⟩
+          show offAt ts s.cur ≤ cb.stop
+          rw [(hc.wfi.tokAt ht).2]
+          exact hc.wfi.offAt_mono (by omega)
+
+theorem compBodyShort_ev (hc : Ctx off w Pv ts) (h : GE Pv ts e s) :
+    Sat (compBodyShort (α := α)) s (fun r s' => GE Pv ts e s' ∧
+      match r with
+      | none => s'.cur = s.cur
+      | some b => s.cur < s'.cur ∧ BodyOKE off w ts s.cur b) := by
+  unfold compBodyShort
+  apply withRecover_sat
+  refine Sat.bind (Sat.mono (consumeWhile_ge _ h) ?_)
+  rintro toks s1 ⟨g1, c1, htoks, -, -⟩
+  split
+  · refine Sat.bind (restToks_sat g1.g ?_)
+    refine Sat.bind (atK_sat g1.g ?_)
+    split
+    · refine Sat.bind (currentOffset_sat g1.g ?_)
+      refine Sat.bind (Sat.pwarnE ?_)
+      exact Sat.pure ⟨(g1.warn hc (one_label (SpanOK.pos (hc.wfi.offAt _)))).setCur h.le, rfl⟩
+    · exact Sat.pure ⟨g1.setCur h.le, rfl⟩
+  · rename_i hne
+    refine Sat.pure ⟨g1, ?_, ?_, ?_, ?_⟩
+    · apply slice_ne_nil_lt (ts := ts)
+      rw [← htoks]; intro h0; rw [h0] at hne; simp at hne
+    · rw [htoks]; exact hc.wfi.slice c1
+    · intro q hq; cases hq
+    · intro sp hsp; cases hsp
+
+theorem compBody_ev (hc : Ctx off w Pv ts) (h : GE Pv ts e s) :
+    Sat (compBody (α := α)) s (fun r s' => GE Pv ts e s' ∧
+      match r with
+      | none => s'.cur = s.cur
+      | some b => s.cur < s'.cur ∧ BodyOKE off w ts s.cur b) := by
+  unfold compBody
+  refine Sat.bind (Sat.mono (compBodyLong_ev hc h) ?_)
+  rintro r s1 ⟨g1, h1⟩
+  cases r with
+  | some b => exact Sat.pure ⟨g1, h1⟩
+  | none =>
+    dsimp only at h1
+    refine Sat.mono (compBodyShort_ev hc g1) ?_
+    rintro r s2 ⟨g2, h2⟩
+    refine ⟨g2, ?_⟩
+    cases r with
+    | none => exact h2.trans h1
+    | some b => rw [h1] at h2; exact h2
+
+theorem modifiersLoop_ev (inter : Bool) (fuel : Nat) (h : GE Pv ts e s) :
+    Sat (modifiersLoop (α := α) inter fuel) s (fun _ s' => GE Pv ts e s' ∧ s.cur ≤ s'.cur ∧
+      ModSeq inter (slice ts s.cur s'.cur)) := by
+  induction fuel generalizing s with
+  | zero =>
+    unfold modifiersLoop
+    exact Sat.pure ⟨h, Nat.le_refl _, by rw [slice_self]; exact .nil⟩
+  | succ fuel ih =>
+    unfold modifiersLoop
+    refine Sat.bind (peekK_sat h.g ?_)
+    split
+    · rename_i k hk
+      obtain ⟨t, ht, htk⟩ := peek_some hk
+      split
+      · rename_i hmod
+        refine Sat.bind (Sat.mono (bumpAny_ge h ht) ?_)
+        rintro _ s1 ⟨-, g1, c1⟩
+        refine Sat.mono (ih g1) ?_
+        rintro _ s2 ⟨g2, c2, hm⟩
+        refine ⟨g2, by omega, ?_⟩
+        rw [slice_append ts (Nat.le_succ s.cur) (by omega : s.cur + 1 ≤ s2.cur), slice_one ht]
+        rw [c1] at hm
+        refine .tok t _ ?_ hm
+        rw [htk]
+        revert hmod; cases k <;> simp [isModifierTok, modifierFlag]
+      · split
+        · rename_i hand
+          have hand' : t.kind = .and := by rw [htk]; simpa using hand
+          refine Sat.bind (Sat.mono (bumpAny_ge h ht) ?_)
+          rintro _ s1 ⟨-, g1, c1⟩
+          dsimp only
+          have hflag : (modifierFlag t.kind).isSome = true := by rw [hand']; rfl
+          have hsimple : ∀ s2 : BP α, GE Pv ts e s2 → s2.cur = s1.cur →
+              Sat (modifiersLoop (α := α) inter fuel) s2 (fun _ s' => GE Pv ts e s' ∧ s.cur ≤ s'.cur ∧
+                ModSeq inter (slice ts s.cur s'.cur)) := by
+            intro s2 g2 c2
+            refine Sat.mono (ih g2) ?_
+            rintro _ s3 ⟨g3, c3, hm⟩
+            refine ⟨g3, by omega, ?_⟩
+            rw [slice_append ts (Nat.le_succ s.cur) (by omega : s.cur + 1 ≤ s3.cur), slice_one ht]
+            rw [c2, c1] at hm
+            exact .tok t _ hflag hm
+          split
+          · rename_i hinter
+            apply Sat.bind
+            apply withRecover_sat
+            refine Sat.bind (Sat.mono (consumeK_ge _ g1) ?_)
+            rintro r2 s2 ⟨g2, h2⟩
+            cases r2 with
+            | none =>
+              refine Sat.pure ?_
+              exact hsimple _ (g2.setCur g1.le) rfl
+            | some o =>
+              obtain ⟨ho, hok, c2⟩ := h2
+              refine Sat.bind (Sat.mono (untilK_ge _ g2) ?_)
+              rintro r3 s3 ⟨g3, h3⟩
+              cases r3 with
+              | none =>
+                refine Sat.pure ?_
+                exact hsimple _ (g3.setCur g1.le) rfl
+              | some mid =>
+                obtain ⟨c3, hmid, ⟨c, hc, hck⟩, hnone⟩ := h3
+                refine Sat.bind (Sat.mono (bump_ge g3 hc (by simpa using hck)) ?_)
+                rintro _ s4 ⟨-, g4, c4⟩
+                refine Sat.pure ?_
+                refine Sat.mono (ih g4) ?_
+                rintro _ s5 ⟨g5, c5, hm⟩
+                refine ⟨g5, by omega, ?_⟩
+                have e1 : slice ts s.cur s5.cur = t :: o :: (mid ++ c :: slice ts s4.cur s5.cur) := by
+                  have p1 : slice ts s.cur s1.cur = [t] := by rw [c1]; exact slice_one ht
+                  have p2 : slice ts s1.cur s2.cur = [o] := by rw [c2]; exact slice_one ho
+                  have p4 : slice ts s3.cur s4.cur = [c] := by rw [c4]; exact slice_one hc
+                  rw [slice_append ts (i := s.cur) (j := s1.cur) (k := s5.cur) (by omega) (by omega),
+                    slice_append ts (i := s1.cur) (j := s2.cur) (k := s5.cur) (by omega) (by omega),
+                    slice_append ts (i := s2.cur) (j := s3.cur) (k := s5.cur) (by omega) (by omega),
+                    slice_append ts (i := s3.cur) (j := s4.cur) (k := s5.cur) (by omega) (by omega),
+                    p1, p2, p4, ← hmid]
+                  simp
+                rw [e1]
+                exact .ref t o c mid _ hinter hand' hok hnone (by simpa using hck) hm
+          · exact hsimple _ g1 rfl
+        · exact Sat.pure ⟨h, Nat.le_refl _, by rw [slice_self]; exact .nil⟩
+    · exact Sat.pure ⟨h, Nat.le_refl _, by rw [slice_self]; exact .nil⟩
+
+theorem modifiersP_ev (h : GE Pv ts e s) :
+    Sat (modifiersP (α := α)) s (fun r s' => GE Pv ts e s' ∧ s.cur ≤ s'.cur ∧
+      ModSeq (e.has Gen.EXT_INTERMEDIATE_PREPARATIONS) r ∧ r = slice ts s.cur s'.cur) := by
+  unfold modifiersP
+  refine Sat.bind (hasExt_sat h.g ?_)
+  split
+  · exact Sat.pure ⟨h, Nat.le_refl _, .nil, (slice_self _ _).symm⟩
+  refine Sat.bind (Sat.getCur ?_)
+  refine Sat.bind (hasExt_sat h.g ?_)
+  refine Sat.bind (restToks_sat h.g ?_)
+  refine Sat.bind (Sat.mono (modifiersLoop_ev _ _ h) ?_)
+  rintro _ s1 ⟨g1, c1, hm⟩
+  refine Sat.bind (Sat.get ?_)
+  refine Sat.pure ⟨g1, c1, ?_, ?_⟩
+  · rw [g1.g.toks]; exact hm
+  · rw [g1.g.toks]; rfl
+
+theorem noteP_ev (hc : Ctx off w Pv ts) (h : GE Pv ts e s) :
+    Sat (noteP (α := α)) s (fun r s' => GE Pv ts e s' ∧ s.cur ≤ s'.cur ∧ OptOK (TextOK off w) r) := by
+  unfold noteP
+  apply withRecover_sat
+  refine Sat.bind (Sat.mono (consumeK_ge _ h) ?_)
+  rintro r1 s1 ⟨g1, h1⟩
+  cases r1 with
+  | none => exact Sat.pure ⟨g1.setCur h.le, Nat.le_refl _, trivial⟩
+  | some o =>
+    obtain ⟨-, -, c1⟩ := h1
+    refine Sat.bind (currentOffset_sat g1.g ?_)
+    refine Sat.bind (Sat.mono (untilK_ge _ g1) ?_)
+    rintro r2 s2 ⟨g2, h2⟩
+    cases r2 with
+    | none => exact Sat.pure ⟨g2.setCur h.le, Nat.le_refl _, trivial⟩
+    | some n =>
+      obtain ⟨c2, hn, ⟨c, hcl, hck⟩, -⟩ := h2
+      refine Sat.bind (Sat.mono (bump_ge g2 hcl (by simpa using hck)) ?_)
+      rintro _ s3 ⟨-, g3, c3⟩
+      have hr : RunIn off w (offAt ts s1.cur) n := by rw [hn]; exact hc.wfi.slice c2
+      refine Sat.bind (bpText_sat hr.run ?_)
+      exact Sat.pure ⟨g3, by omega, hr.text⟩
+
+theorem parseInterRef_ev (hc : Ctx off w Pv ts) (h : GE Pv ts e s) {o : Nat} (toks : List Tok)
+    (hr : RunIn off w o toks) :
+    Sat (parseInterRef (α := α) toks) s (fun r s' =>
+      (GE Pv ts e s' ∧ s'.cur = s.cur ∧ OptOK (fun d : Loc InterData => SpanOK off w d.span) r.1 ∧
+        ((r.2 = toks ∧ (toks.head?.map (·.kind)) ≠ some .openParen) ∨
+         (∃ endPos, (toks.head?.map (·.kind)) = some .openParen ∧
+            toks.findIdx? (fun t => t.kind == .closeParen) = some endPos ∧
+            r.2 = toks.drop (endPos + 1)))) ∨
+      ((toks.head?.map (·.kind)) = some .openParen ∧
+        toks.findIdx? (fun t => t.kind == .closeParen) = none)) := by
+  unfold parseInterRef
+  split
+  · exact Sat.pure (Or.inl ⟨h, rfl, trivial, Or.inl ⟨rfl, by simp⟩⟩)
+  rename_i t0 tail
+  split
+  · rename_i hk
+    refine Sat.pure (Or.inl ⟨h, rfl, trivial, Or.inl ⟨rfl, ?_⟩⟩)
+    simp only [List.head?_cons, Option.map_some, ne_eq, Option.some.injEq]
+    simpa using hk
+  rename_i hk
+  split
+  · rename_i hnone
+    refine Sat.bind (Sat.modify ?_)
+    refine Sat.pure (Or.inr ⟨?_, hnone⟩)
+    simp only [List.head?_cons, Option.map_some, Option.some.injEq]
+    simpa using hk
+  rename_i pos hpos
+  have hpos : (List.head? (t0 :: tail)).map (·.kind) = some TK.openParen ∧
+      List.findIdx? (fun t => t.kind == TK.closeParen) (t0 :: tail) = some pos := by
+    refine ⟨?_, hpos⟩
+    simp only [List.head?_cons, Option.map_some, Option.some.injEq]
+    simpa using hk
+  extract_lets +onlyGivenNames slice restM inner f sliceSpan ks good
+  have hsl : RunIn off w o slice := hr.prefix _
+  have hslne : slice ≠ [] := by simp [slice]
+  have hss : SpanOK off w sliceSpan := hsl.tokensSpan hslne
+  have hin : ∃ o', RunIn off w o' inner := ⟨_, (hsl.suffix 1).prefix _⟩
+  have hfm : ∀ t ∈ f, SpanOK off w ⟨t.start, t.stop⟩ := by
+    intro t ht
+    have h1 : t ∈ inner := (List.mem_filter.mp ht).1
+    obtain ⟨o', hin'⟩ := hin
+    exact hin'.tok h1
+  have hfne : f.isEmpty = false → inner ≠ [] := by
+    intro h1 h0
+    simp [f, h0] at h1
+  have hrest : restM = List.drop (pos + 1) (t0 :: tail) := rfl
+  clear_value ks sliceSpan f inner restM slice
+  have hgood : ∀ i rel sec, good = some (i, rel, sec) → i ∈ f := by
+    intro i rel sec hg
+    simp only [good] at hg
+    split at hg
+    · split at hg
+      · simp only [Option.some.injEq, Prod.mk.injEq] at hg; simp [hg.1]
+      · cases hg
+    · split at hg
+      · simp only [Option.some.injEq, Prod.mk.injEq] at hg; simp [hg.1]
+      · split at hg
+        · simp only [Option.some.injEq, Prod.mk.injEq] at hg; simp [hg.1]
+        · cases hg
+    · split at hg
+      · simp only [Option.some.injEq, Prod.mk.injEq] at hg; simp [hg.1]
+      · cases hg
+    · cases hg
+  clear_value good
+  have fin : ∀ (d : Option (Loc InterData)) (s' : BP α), GE Pv ts e s' → s'.cur = s.cur →
+      OptOK (fun d : Loc InterData => SpanOK off w d.span) d →
+      Sat (pure (d, restM) : P α _) s' (fun r s' =>
+      (GE Pv ts e s' ∧ s'.cur = s.cur ∧ OptOK (fun d : Loc InterData => SpanOK off w d.span) r.1 ∧
+        ((r.2 = t0 :: tail ∧ ((t0 :: tail).head?.map (·.kind)) ≠ some .openParen) ∨
+         (∃ endPos, ((t0 :: tail).head?.map (·.kind)) = some .openParen ∧
+            (t0 :: tail).findIdx? (fun t => t.kind == .closeParen) = some endPos ∧
+            r.2 = (t0 :: tail).drop (endPos + 1)))) ∨
+      (((t0 :: tail).head?.map (·.kind)) = some .openParen ∧
+        (t0 :: tail).findIdx? (fun t => t.kind == .closeParen) = none)) := by
+    intro d s' g' c' hd
+    exact Sat.pure (Or.inl ⟨g', c', hd, Or.inr ⟨_, hpos.1, hpos.2, hrest⟩⟩)
+  dsimp only
+  split
+  · rename_i i rel sec
+    have hi := hgood i rel sec rfl
+    split
+    · exact fin _ _ h rfl hss
+    · refine Sat.bind (Sat.perrE ?_)
+      exact fin _ _ (h.err hc (one_label (hfm i hi))) rfl trivial
+  · split
+    · refine Sat.bind (Sat.perrE ?_)
+      exact fin _ _ (h.err hc (one_label hss)) rfl trivial
+    · rename_i hf
+      split
+      · refine Sat.bind (Sat.perrE ?_)
+        refine fin _ _ (h.err hc ?_) rfl trivial
+        intro l hl
+        obtain ⟨t, ht, rfl⟩ := List.mem_map.mp hl
+        exact hfm t (List.mem_of_mem_take ht)
+      · split
+        · refine Sat.bind (Sat.perrE ?_)
+          refine fin _ _ (h.err hc ?_) rfl trivial
+          intro l hl
+          cases hx : f[f.length - 2]? with
+          | none => rw [hx] at hl; simp at hl
+          | some t =>
+            rw [hx] at hl
+            simp only [Option.map_some, Option.getD_some, List.mem_singleton] at hl
+            subst hl
+            exact hfm t (List.mem_of_getElem? hx)
+        · obtain ⟨o', hin'⟩ := hin
+          have hine := hfne (by simpa using hf)
+          refine Sat.bind (tokensSpanP_sat hine ?_)
+          refine Sat.bind (Sat.perrE ?_)
+          exact fin _ _ (h.err hc (one_label (hin'.tokensSpan hine))) rfl trivial
+
 end Cook
